@@ -2,4 +2,4 @@
 From Coq Require Extraction ExtrOcamlBasic.
 From Verif Require Import Codec.OffsetModel Reloc.RelocModel.
 Extraction Blacklist List String Int.
-Extraction "reloc.ml" RelocModel.relocate.
+Extraction "reloc.ml" RelocModel.relocate RelocModel.known_rel32.
